@@ -64,7 +64,7 @@ def run(harnesses, jobs=16, harness_timeout=900, extra_args=(), overall_timeout=
     os.close(fd)
     os.unlink(out_json)
     cmd = ["cargo", "kani", "--exact", "-j", str(jobs), "--output-format", "terse",
-           "--no-assertion-reach-checks", "-Z", "unstable-options",
+           "--no-assertion-reach-checks", "-Z", "unstable-options", "-Z", "stubbing",
            "--harness-timeout", f"{int(harness_timeout)}s",
            "--export-json", out_json]
     cmd += list(extra_args)
@@ -151,7 +151,7 @@ PLAYBACK_RE = re.compile(r"```\s*\n(.*?)```", re.S)
 def concrete_playback(harness, timeout=1200):
     """Re-runs one failing harness asking CBMC for a concrete counterexample.
     Returns (test_source or None, byte_vectors or None)."""
-    cmd = ["cargo", "kani", "--exact", "--harness", harness, "--no-assertion-reach-checks",
+    cmd = ["cargo", "kani", "--exact", "--harness", harness, "--no-assertion-reach-checks", "-Z", "stubbing",
            "-Z", "concrete-playback", "--concrete-playback=print"]
     try:
         proc = subprocess.run(cmd, cwd=CRATE, env=ENV, stdout=subprocess.PIPE, stderr=subprocess.STDOUT,
